@@ -33,3 +33,7 @@ func (s *Service) VerifConnections() int64 { return atomic.LoadInt64(&s.connecti
 
 // VerifPresenceQueueCap returns the capacity of the presence notification queue.
 func (s *Service) VerifPresenceQueueCap() int { return s.presence.VerifQueueCap() }
+
+// VerifStartSurveyor subscribes the surveyor to the query channel, as Listen does once the
+// cluster is up.
+func (s *Service) VerifStartSurveyor() { s.surveyor.Start() }
